@@ -63,7 +63,7 @@ def is_valid_name(word):
 
 def quote_docstring(doc: str):
     """Return a triple-quoted string literal that evaluates to ``doc``"""
-    doc = doc.replace("\\", "\\\\")
+    doc = doc.replace("\\", "\\\\").replace("\r", "\\r")
     if doc.endswith('"'):
         doc = doc[:-1] + '\\"'
     doc = doc.replace('"""', '""\\"')
